@@ -13,6 +13,7 @@ import QuantityModel.Model.Catalogue
 import QuantityModel.Gen.Catalogue
 import QuantityModel.Gen.Prefixes
 import QuantityModel.Gen.DocTables
+import QuantityModel.Proofs.RegistryTerm
 namespace QM.Props.C20
 open QM
 
@@ -125,5 +126,46 @@ theorem documentation_temperature_rows :
     Gen.docTempRows.lookup "°C" = some "0 °C = 32 °F = 273.15 K" ∧
     Gen.docTempRows.lookup "K" = some "0 K = -273.15 °C = -459.67 °F" := by
   decide +kernel
+
+/-! ### the term theorems of C07 apply to the catalogue
+
+The two environment hypotheses of C07's equivalence (stored normalised
+definitions mention base units only; distinct base units are not convertible
+into each other) are decided for the catalogue state by kernel evaluation. -/
+
+theorem catalogue_meets_term_hypotheses :
+    baseNoConvUpTo catState.unitEnv catState.unitEnv.atoms.length = true ∧
+    defsBaseOnlyUpTo catState.unitEnv catState.unitEnv.atoms.length = true := by
+  decide +kernel
+
+/-- **In the predefined catalogue two unit terms are equal exactly when they
+denote the same rational factor and the same exponent for every base unit**
+(kg, m, s, B, and the temperature units), provided they do not mention two
+different temperature units (`KeysSeparate`: the three temperature units are
+base units of one type without reference unit — known finding D5). -/
+theorem catalogue_terms_equal_iff (t₁ t₂ : Items)
+    (hsep : KeysSeparate catState.unitEnv t₁ t₂) (h₁ : Clean t₁) (h₂ : Clean t₂) :
+    termEq catState.unitEnv t₁ t₂ = true ↔
+      (numVal (expanded catState.unitEnv t₁) = numVal (expanded catState.unitEnv t₂) ∧
+       ∀ a, expOf a (expanded catState.unitEnv t₁) = expOf a (expanded catState.unitEnv t₂)) :=
+  termEq_iff _ (keysNonneg_unitEnv _)
+    (defsBaseOnly_of_check _ catalogue_meets_term_hypotheses.2)
+    (baseNoConv_of_check _ catalogue_meets_term_hypotheses.1) t₁ t₂ hsep h₁ h₂
+
+/-- hence the result of `unit × unit`, `unit / unit`, `unit ** n` in the
+catalogue depends on the dimension and scale of the term only (C02) -/
+theorem catalogue_resolution_depends_on_denotation (t₁ t₂ : Items)
+    (hsep : KeysSeparate catState.unitEnv t₁ t₂) (h₁ : Clean t₁) (h₂ : Clean t₂)
+    (hn : numVal (expanded catState.unitEnv t₁) = numVal (expanded catState.unitEnv t₂))
+    (he : ∀ a, expOf a (expanded catState.unitEnv t₁) = expOf a (expanded catState.unitEnv t₂)) :
+    catState.amntAndUnit t₁ = catState.amntAndUnit t₂ := by
+  have := (catalogue_terms_equal_iff t₁ t₂ hsep h₁ h₂).mpr ⟨hn, he⟩
+  unfold termEq at this
+  have hnf : termNormalized catState.unitEnv t₁ = termNormalized catState.unitEnv t₂ := by
+    simpa using this
+  unfold RegState.amntAndUnit RegState.unitFromTerm
+  have heq : ∀ x, termEq catState.unitEnv x t₁ = termEq catState.unitEnv x t₂ := by
+    intro x; unfold termEq; rw [hnf]
+  simp only [heq, hnf]
 
 end QM.Props.C20
